@@ -250,6 +250,24 @@ def memoize (xs : List Val) : Out Val :=
     .ok (.list [.list rs, .list cs])
   else .throw
 
+/-- `Func::Memoized` called with argument tuples of any arity: the cache key is the TUPLE
+(`Vec<ObjKey>`: length and element-wise key hash / equality — modelled by the list key `.list args`);
+the memoized function is `\\...xs -> xs` with a trace; result `[results, tuples actually computed]` -/
+def memoCallsLoop : Entries → List (List Val) → List Val × List Val
+  | _, [] => ([], [])
+  | memo, args :: rest =>
+    match lookup hit memo (.list args) with
+    | some r => let (rs, cs) := memoCallsLoop memo rest; (r :: rs, cs)
+    | none =>
+      let r := Val.list args
+      let (rs, cs) := memoCallsLoop (insert hit memo (.list args) r) rest
+      (r :: rs, r :: cs)
+def memoizeCalls (calls : List (List Val)) : Out Val :=
+  if calls.all (fun args => args.all validKey) then
+    let (rs, cs) := memoCallsLoop hit [] calls
+    .ok (.list [.list rs, .list cs])
+  else .throw
+
 end DictOps
 
 end Noulith
